@@ -1,4 +1,5 @@
 import Econf.Lemmas.ParserLemmas
+import Econf.Lemmas.DocLemmas
 
 /-!
   C05 — a commented-out line is inert whatever it contains.
@@ -59,5 +60,53 @@ theorem C05_lines_inert (cfg : Cfg) (st : PState) (block : List Str) (h : ∀ l 
 example : IsCommentLine { delim := [0x3d], comment := [0x23, 0x3b] } [0x23, 0x6f, 0x6c, 0x64, 0x3d, 0x31, 0x20, 0x23, 0x20, 0x64, 0x0a] ∧
     IsCommentLine { delim := [0x3d], comment := [0x23, 0x3b] } [0x20, 0x09, 0x3b, 0x5b, 0x78, 0x0a] :=
   ⟨⟨0x23, [0x6f, 0x6c, 0x64, 0x3d, 0x31, 0x20, 0x23, 0x20, 0x64], by decide, by decide⟩, ⟨0x3b, [0x5b, 0x78], by decide, by decide⟩⟩
+
+/-! ### inserting or deleting comment lines (second sentence of C05)
+
+Documents are those of the conventional grammar (`Econf/Grammar.lean`, delimiter class "non-blank");
+the inserted block is any list of comment-line and blank-line items – a comment line is an
+indentation, a comment character and **any** text without NUL and line break (further comment
+characters, delimiters, quotes, brackets included: `Item.WF` asks for `texts text` only) – and the
+insertion point is any item boundary; in a single-line-value file that is every line boundary.
+Deleting is the same statement read from right to left. -/
+
+theorem C05_insert_comments (cfg : Cfg) (pre block post : List Item) (hw : CfgWF cfg.eff)
+    (hpre : ∀ it ∈ pre, it.WF cfg.eff) (hpost : ∀ it ∈ post, it.WF cfg.eff)
+    (hblock : ∀ it ∈ block, it.WF cfg.eff ∧ it.inert = true) (hj : cfg.join = false) :
+    ∃ s1 s2, parseBytes cfg (render (pre ++ post)) = .ok s1 ∧
+             parseBytes cfg (render (pre ++ block ++ post)) = .ok s2 ∧
+             s1.view = s2.view := by
+  have h1 : ∀ it ∈ pre ++ post, it.WF cfg.eff := by
+    intro it hit
+    rcases List.mem_append.mp hit with hit | hit
+    · exact hpre it hit
+    · exact hpost it hit
+  have h2 : ∀ it ∈ pre ++ block ++ post, it.WF cfg.eff := by
+    intro it hit
+    rcases List.mem_append.mp hit with hit | hit
+    · rcases List.mem_append.mp hit with hit | hit
+      · exact hpre it hit
+      · exact (hblock it hit).1
+    · exact hpost it hit
+  refine ⟨expDoc (pre ++ post), expDoc (pre ++ block ++ post),
+    C02_parse_render_plain cfg _ hw h1 hj, C02_parse_render_plain cfg _ hw h2 hj, ?_⟩
+  unfold expDoc
+  rw [List.foldl_append, List.foldl_append, List.foldl_append]
+  have hb := sameContent_inert_block (pre.foldl expItem {}) block (fun it hit => (hblock it hit).2)
+  have := sameContent_doc cfg.eff post _ _ hpost hb
+  unfold PState.view
+  rw [this.1, this.2.1]
+
+/-- non-vacuity: `#old=1 # "x [y` inserted into the concrete document of `Props/C02.lean` behind its section header -/
+example : ∃ s1 s2, parseBytes exCfg (render (exDoc.take 3 ++ exDoc.drop 3)) = .ok s1 ∧
+    parseBytes exCfg (render (exDoc.take 3 ++ [.comment [0x09] 0x23 [0x6f, 0x6c, 0x64, 0x3d, 0x31, 0x20, 0x23, 0x20, 0x22, 0x78, 0x20, 0x5b, 0x79]] ++ exDoc.drop 3)) = .ok s2 ∧
+    s1.view = s2.view := by
+  apply C05_insert_comments exCfg _ _ _ exCfg_wf
+  · intro it hit; exact exDoc_wf it (List.mem_of_mem_take hit)
+  · intro it hit; exact exDoc_wf it (List.mem_of_mem_drop hit)
+  · intro it hit
+    simp only [List.mem_singleton] at hit; subst hit
+    exact ⟨⟨by decide, by decide, by decide⟩, rfl⟩
+  · rfl
 
 end Econf
